@@ -5,7 +5,7 @@
    for EVERY validation mode m (so the mode is irrelevant on well-formed text) and, for
    Latin-1 targets, for both settings of the out-of-range flag.                          *)
 From Coq Require Import NArith List Bool.
-From ST Require Import Base.Outcome Base.Units Utf.Spec Utf.Tokens Utf.Model Utf.ProofsC01.
+From ST Require Import Base.Outcome Base.Units Utf.Spec Utf.Tokens Utf.Model Utf.ProofsC01 Utf.ApiCoverage.
 Import ListNotations.
 Local Open Scope N_scope.
 
@@ -80,6 +80,9 @@ Example hypotheses_satisfiable :
   scalars [0x41; 0xE9; 0x20AC; 0x1F600; 0x10FFFF] = true /\ fits (enc8 [0x41; 0xE9; 0x20AC; 0x1F600; 0x10FFFF]).
 Proof. exact std_nonvacuous. Qed.
 
-(* routes_covered_partial: the API inventory Gen/Api.v (DESIGN 4.3) is not generated in this
-   round, so "every overload is modelled" is tied by the harness route table only
-   (checks/utf_gen.py: routes_for / default_only_routes), not by a Coq obligation. *)
+(* ---- every conversion route of the headers is one of the modelled ones: the free functions X_to_Y and the
+   from_* / to_* members of ST::string harvested from the AST on this run are all named in the route tables of
+   Utf/ApiCoverage.v (which bind each name to its Model.v transcription), and no table entry is stale ---- *)
+Theorem every_route_is_modelled : ST.Utf.ApiCoverage.routes_covered_b = true.
+Proof. exact ST.Utf.ApiCoverage.routes_covered. Qed.
+Print Assumptions every_route_is_modelled.
